@@ -21,16 +21,16 @@ import (
 
 // attempt kinds (what the scripted backend does with one attempt)
 const (
-	akRespond       = iota // full response per plan
-	akDialRefuse           // connect refused
-	akDialTimeout          // connect times out
-	akResetOnAccept        // accept, then RST before reading anything
-	akResetAfterReq        // read the request, then RST without a byte of response
-	akCloseAfterReq        // read the request, then FIN without a byte of response
-	akNoResponse           // read the request, never answer (response-header timeout)
-	akResetMidHeader       // RST in the middle of the response head
-	akResetMidBody         // RST after part of the body
-	akCloseMidBody         // FIN after part of a Content-Length body
+	akRespond        = iota // full response per plan
+	akDialRefuse            // connect refused
+	akDialTimeout           // connect times out
+	akResetOnAccept         // accept, then RST before reading anything
+	akResetAfterReq         // read the request, then RST without a byte of response
+	akCloseAfterReq         // read the request, then FIN without a byte of response
+	akNoResponse            // read the request, never answer (response-header timeout)
+	akResetMidHeader        // RST in the middle of the response head
+	akResetMidBody          // RST after part of the body
+	akCloseMidBody          // FIN after part of a Content-Length body
 	akKinds
 )
 
@@ -93,6 +93,7 @@ type clientRec struct {
 	Closed    bool   // server closed the connection (EOF/reset seen)
 	Reset     bool
 	TimedOut  bool
+	Aborted   bool // the client itself closed the connection in the middle of a response
 	Responses []*href.Message
 	ParseErr  error
 }
@@ -118,11 +119,12 @@ type eng struct {
 	faults   bool
 	pending  map[string]*attemptRec // fresh dial per backend addr awaiting its request
 	filt     *filters
-	peerAddr []string // socket peer address per client conn (C29)
+	peerAddr []string       // socket peer address per client conn (C29)
 	seenAddr map[int]string // req.ClientAddr observed by a generated filter, per request id
-	spoof    bool // C29: address-spoofing headers
-	accEnc   bool // C54: Accept-Encoding variants
-	hostile  bool // C25: hostile header names / values / targets
+	abort    bool           // clients may close their connection in the middle of a response (C07, C54)
+	spoof    bool           // C29: address-spoofing headers
+	accEnc   bool           // C54: Accept-Encoding variants
+	hostile  bool           // C25: hostile header names / values / targets
 }
 
 // ---- generation ---------------------------------------------------------------
@@ -140,7 +142,7 @@ func (e *eng) genConf(nconn int) *nconf {
 			RetryMax: tp.Draw(3, "retry_max"), CrossRetry: tp.Draw(2, "cross_retry"), RetryLevel: tp.Draw(2, "retry_level"),
 			MaxIdle: []int{0, 2}[tp.Draw(2, "max_idle")], RespHdrTO: []int{200, 2000}[tp.Draw(2, "resp_hdr_to")], ConnTO: 500,
 			ReadCliTO: 30000, WriteCliTO: 60000, ReadAgain: []int{1000, 30000}[tp.Draw(2, "read_again")], ReqBuf: []int{0, 64, 512}[tp.Draw(3, "req_buf")],
-			ResFlush: []int{-1, -1, 0, 5, 50}[tp.Draw(5, "res_flush")]}
+			ResFlush: []int{-1, -1, 0, 5, 50}[tp.Draw(5, "res_flush")], CancelOnClose: tp.Chance(1, 2, "cancel_on_client_close")}
 		nsub := tp.Range(1, 2, "n_subs")
 		for si := 0; si < nsub; si++ {
 			sn := fmt.Sprintf("sub%d.%s", si, name)
@@ -294,7 +296,7 @@ func (e *eng) genReq(id, conn int) *reqPlan {
 		}
 	}
 	if e.accEnc {
-		if v := []string{"", "gzip", "br", "gzip, br", "identity", "deflate", "gzip;q=0"}[tp.Draw(7, "accept_encoding")]; v != "" {
+		if v := []string{"", "gzip", "br", "gzip, br", "identity", "deflate", "gzip;q=0", "gzip;q=0.0", "br;q=0.00, gzip", "gzip;q=0.000, br;q=0.0", "gzip;Q=0, br;q=0", "gzip;q=0.5, br;q=0.1", "GZIP", "*;q=0"}[tp.Draw(14, "accept_encoding")]; v != "" {
 			p.Fields = append(p.Fields, href.Field{"Accept-Encoding", v})
 		}
 	}
@@ -633,6 +635,11 @@ func (e *eng) runClient(ci int, pipeline int) func() {
 		}
 		plans := e.byConn[ci]
 		tmp := make([]byte, 4096)
+		abortAt := -1
+		if e.abort && e.faults && e.tp.Chance(1, 3, "client_abort") {
+			// the client goes away after this many received bytes, whatever is in flight
+			abortAt = []int{1, 60, 300, 2000}[e.tp.Draw(4, "client_abort_class")] + e.tp.Draw(50, "client_abort_at")
+		}
 		for i := 0; i < len(plans); i += pipeline {
 			batch := plans[i:minI(i+pipeline, len(plans))]
 			for _, p := range batch {
@@ -659,6 +666,13 @@ func (e *eng) runClient(ci int, pipeline int) func() {
 				}
 				k, err := conn.Read(tmp)
 				cr.Raw = append(cr.Raw, tmp[:k]...)
+				if abortAt >= 0 && len(cr.Raw) >= abortAt && err == nil {
+					e.s.Fault("client_abort")
+					cr.Aborted, cr.Closed = true, true
+					e.parseClient(cr, false)
+					e.cur[ci] = nil
+					return // deferred Close: FIN toward the node while it is still sending
+				}
 				if err != nil {
 					cr.Closed = true
 					if ne, ok := err.(interface{ Timeout() bool }); ok && ne.Timeout() {
